@@ -12,6 +12,7 @@ Contents: character classes (white space is never an identifier rune; the ASCII 
 syntax is neither), list facts about `takeWhile / dropWhile` on `piece ++ rest`, projections of the
 primitives, the scanning loops on shaped input (`skipWs scanIdent scanComment scanString skipBlanks`), and
 `Goes`, the chaining form of `Reaches` in which all lemmas about state functions are stated. -/
+set_option linter.unusedSimpArgs false
 namespace Spok
 namespace RT
 
@@ -498,6 +499,173 @@ theorem skipBlanks_right_blanks {l : L} {b rest : List Rune} (hr : l.right = b +
     (hs : Stops isBlank rest) : (skipBlanks l).right = rest := by
   rw [skipBlanks_right, hr]
   exact dropWhile_append_stops (fun r h => by simpa [isBlank] using hb r h) hs
+
+/-! ## chaining runs -/
+
+/-- the rune `next` / `peek` return -/
+def headRune : List Rune → Rune
+  | [] => eofRune
+  | r :: _ => r
+@[simp] theorem headRune_cons (r : Rune) (rs : List Rune) : headRune (r :: rs) = r := rfl
+@[simp] theorem headRune_nil : headRune [] = eofRune := rfl
+@[simp] theorem next_rune (l : L) : (l.next).2 = headRune l.right := by
+  unfold L.next; cases l.right <;> rfl
+@[simp] theorem peek_rune (l : L) : (l.peek).2 = headRune l.right := by simp [L.peek]
+
+/-- From `(l, t)` the run loop reaches tag `t'` in a state whose remaining input is `rt` and whose token buffer
+    is `tk`, having emitted the tokens `vs`. -/
+def Goes (l : L) (t t' : Tag) (rt tk : List Rune) (vs : List View) : Prop :=
+  ∃ l', Reaches l t l' t' ∧ l'.right = rt ∧ l'.tokRev = tk ∧ views l' = views l ++ vs
+
+theorem Goes.step {l l' : L} {t t' : Tag} {rt tk : List Rune} {vs : List View} (hf : t.final = false)
+    (hs : stepTag l t = (l', t')) (hr : l'.right = rt) (hk : l'.tokRev = tk) (hv : views l' = views l ++ vs) :
+    Goes l t t' rt tk vs := ⟨l', Reaches.step hf hs, hr, hk, hv⟩
+
+theorem Goes.trans {l : L} {t t1 t2 : Tag} {r1 k1 r2 k2 : List Rune} {v1 v2 : List View}
+    (h1 : Goes l t t1 r1 k1 v1) (h2 : ∀ l1 : L, l1.right = r1 → l1.tokRev = k1 → Goes l1 t1 t2 r2 k2 v2) :
+    Goes l t t2 r2 k2 (v1 ++ v2) := by
+  obtain ⟨l1, hR1, hr1, hk1, hv1⟩ := h1
+  obtain ⟨l2, hR2, hr2, hk2, hv2⟩ := h2 l1 hr1 hk1
+  exact ⟨l2, hR1.trans hR2, hr2, hk2, by rw [hv2, hv1, List.append_assoc]⟩
+
+theorem Goes.refl (l : L) (t : Tag) : Goes l t t l.right l.tokRev [] := ⟨l, Reaches.refl l t, rfl, rfl, by simp⟩
+
+/-- adjust the description of the result -/
+theorem Goes.cast {l : L} {t t' t'' : Tag} {rt rt' tk tk' : List Rune} {vs vs' : List View}
+    (h : Goes l t t' rt tk vs) (ht : t' = t'') (hr : rt = rt') (hk : tk = tk') (hv : vs = vs') :
+    Goes l t t'' rt' tk' vs' := by subst ht hr hk hv; exact h
+
+/-! ## the state functions on shaped input -/
+
+theorem goes_lexStart_hash {l : L} {r : Rune} {rs : List Rune} (hr : l.right.dropWhile isSpace = r :: rs)
+    (hc : r.cp = HASH) : Goes l .start .hash (r :: rs) [] [] := by
+  have hr' : (skipWs l).right = r :: rs := by rw [skipWs_right, hr]
+  have e : lexStart l = (skipWs l, .hash) := by simp [lexStart, hasPrefix_eq, hr', hc]
+  exact Goes.step rfl e hr' (by simp) (by simp)
+
+theorem goes_lexStart_task {l : L} {r : Rune} {rs : List Rune} (hr : l.right.dropWhile isSpace = r :: rs)
+    (hk : ((r :: rs).take 4).map (·.cp) = [116, 97, 115, 107]) : Goes l .start .taskKeyword (r :: rs) [] [] := by
+  have hr' : (skipWs l).right = r :: rs := by rw [skipWs_right, hr]
+  have hc : r.cp = 116 := by simp at hk; exact hk.1
+  have hk' : (skipWs l).hasPrefix [116, 97, 115, 107] = true := by
+    rw [hasPrefix_eq, hr']; simpa using hk
+  have hh : (skipWs l).hasPrefix [HASH] = false := by
+    rw [hasPrefix_eq, hr']; simp [hc]
+  have e : lexStart l = (skipWs l, .taskKeyword) := by simp [lexStart, hk', hh]
+  exact Goes.step rfl e hr' (by simp) (by simp)
+
+theorem goes_lexStart_ident {l : L} {r : Rune} {rs : List Rune} (hr : l.right.dropWhile isSpace = r :: rs)
+    (hi : isIdent r = true) (hk : ((r :: rs).take 4).map (·.cp) ≠ [116, 97, 115, 107]) :
+    Goes l .start .ident rs [r] [] := by
+  have hr' : (skipWs l).right = r :: rs := by rw [skipWs_right, hr]
+  have hc : r.cp ≠ HASH := cp_ne_of_ident hi (by simp)
+  have e : lexStart l = (((skipWs l).peek).1.next.1, .ident) := by
+    have hk' : (skipWs l).hasPrefix [116, 97, 115, 107] = false := by
+      rw [hasPrefix_eq, hr']; simpa using hk
+    simp [lexStart, hk', hr', hi]
+    simp [hasPrefix_eq, hr', hc]
+  have hp : ((skipWs l).peek).1.right = r :: rs := by simp [hr']
+  exact Goes.step rfl e (L.next_right_cons hp) (by rw [L.next_tokRev_cons hp]; simp) (by simp)
+
+theorem goes_lexStart_eof {l : L} (hr : l.right.dropWhile isSpace = []) : Goes l .start .done [] [] [vEOF] := by
+  have hr' : (skipWs l).right = [] := by rw [skipWs_right, hr]
+  have e : lexStart l = (((skipWs l).peek).1.emit .eof, .done) := by
+    simp [lexStart, hasPrefix_eq, hr', L.atEOF, isIdent_eofRune]
+  exact Goes.step rfl e (by simp [hr']) (by simp) (by simp [vEOF])
+
+theorem goes_lexHash {l : L} {r : Rune} {rs : List Rune} (hr : l.right = r :: rs) (hk : l.tokRev = []) :
+    Goes l .hash .comment rs [] [(.hash, [r])] := by
+  have e : lexHash l = ((l.absorb 1).emit .hash, .comment) := by simp [lexHash, L.atEOF, hr]
+  exact Goes.step rfl e (by simp [hr]) (by simp) (by simp [hr, hk])
+
+theorem goes_lexComment {l : L} {c tail : List Rune} (hr : l.right = c ++ tail) (hk : l.tokRev = []) (hc : CommentOK c)
+    (ht : tail = [] ∨ startsEol tail = true) (hcr : endsWithCp c CR = true → ∀ r, tail.head? = some r → r.cp ≠ NL) :
+    Goes l .comment .start tail [] [(.comment, c)] := by
+  obtain ⟨h1, h2, h3⟩ := scanComment_spec c l tail hr hc ht hcr
+  exact Goes.step (l' := (scanComment l).emit .comment) rfl rfl (by simpa using h1) (by simp)
+    (by simp [h2, hk, views_of_toks h3])
+
+
+theorem stops_ident_ws_append {ws after : List Rune} (hw : Ws ws) (ha : Stops isIdent after) : Stops isIdent (ws ++ after) := by
+  cases ws with
+  | nil => simpa using ha
+  | cons w ws => exact Stops.cons (isSpace_not_ident (hw w (by simp))) _
+
+/-- the text begins with `:=` -/
+def declAhead (after : List Rune) : Bool := (after.take 2).map (·.cp) == [COLON, EQUALS]
+
+/-- where `lexIdent` goes, given what follows the identifier and the white space after it -/
+def identTag (after : List Rune) : Tag :=
+  match after with
+  | [] => .start
+  | r :: _ =>
+    if r.cp = LPAREN then .leftParen
+    else if declAhead after then .declare
+    else if r.cp = RPAREN then .rightParen
+    else if r.cp = COMMA then .comma
+    else if r.cp = LBRACE then .leftBrace
+    else .done
+
+/-- the dispatch at the end of `lexIdent` -/
+def identTail (l : L) : L × Tag :=
+  let (l, r) := l.peek
+  if r.cp == LPAREN then (l, .leftParen)
+  else if l.hasPrefix [COLON, EQUALS] then (l, .declare)
+  else
+    let (l, eol) := l.atEOL
+    if eol || l.atEOF then (l, .start)
+    else
+      let (l, r) := l.peek
+      if r.cp == RPAREN then (l, .rightParen)
+      else if r.cp == COMMA then (l, .comma)
+      else if r.cp == LBRACE then (l, .leftBrace)
+      else l.error
+
+theorem lexIdent_eq (l : L) : lexIdent l = identTail (skipWs ((scanIdent l).emit .ident)) := rfl
+
+theorem identTail_spec {m : L} {after : List Rune} (hm : m.right = after) (hs : Stops isSpace after)
+    (ht : identTag after ≠ .done) :
+    (identTail m).2 = identTag after ∧ (identTail m).1.right = after ∧ (identTail m).1.tokRev = m.tokRev ∧
+    (identTail m).1.toks = m.toks := by
+  have hse := startsEol_of_stops hs
+  subst hm
+  cases hr : m.right with
+  | nil =>
+    simp [identTail, identTag, hr, hasPrefix_eq, atEOL_val, startsEol, L.atEOF]
+  | cons r rs =>
+    rw [hr] at hse ht
+    unfold identTag at ht ⊢
+    unfold identTail
+    simp only [] at ht ⊢
+    by_cases h1 : r.cp = LPAREN
+    · simp [hr, h1]
+    · have hp : m.hasPrefix [COLON, EQUALS] = declAhead (r :: rs) := by rw [hasPrefix_eq, hr]; rfl
+      by_cases h2 : declAhead (r :: rs) = true
+      · simp [hr, h1, hp, h2]
+      · have h2' := hp
+        simp only [h2] at h2'
+        by_cases h3 : r.cp = RPAREN
+        · simp [hr, h1, h2, h2', h3, atEOL_val, hse, L.atEOF]
+        · by_cases h4 : r.cp = COMMA
+          · simp [hr, h1, h2, h2', h3, h4, atEOL_val, hse, L.atEOF]
+          · by_cases h5 : r.cp = LBRACE
+            · simp [hr, h1, h2, h2', h3, h4, h5, atEOL_val, hse, L.atEOF]
+            · simp [h1, h2, h3, h4, h5] at ht
+
+/-- `lexIdent` with the rest `n` of an identifier, white space `ws` and then `after` ahead (the first rune(s) of
+    the identifier are in the token buffer): emits the identifier and stands in front of `after` -/
+theorem goes_lexIdent {l : L} {n ws after : List Rune} (hr : l.right = n ++ ws ++ after) (hn : IdentRunes n) (hw : Ws ws)
+    (hs : Stops isSpace after) (hi : Stops isIdent after) (ht : identTag after ≠ .done) :
+    Goes l .ident (identTag after) after [] [(.ident, l.tokRev.reverse ++ n)] := by
+  obtain ⟨h1, h2⟩ := scanIdent_spec (l := l) (n := n) (rest := ws ++ after) (by simpa using hr) hn
+    (stops_ident_ws_append hw hi)
+  have hm : (skipWs ((scanIdent l).emit .ident)).right = after :=
+    skipWs_right_ws (ws := ws) (by simpa using h1) hw hs
+  obtain ⟨e1, e2, e3, e4⟩ := identTail_spec hm hs ht
+  refine Goes.step (l' := (identTail (skipWs ((scanIdent l).emit .ident))).1) rfl ?_ e2 (by rw [e3]; simp) ?_
+  · show lexIdent l = _
+    rw [lexIdent_eq, ← e1]
+  · rw [views_of_toks e4]; simp [h2]
 
 end RT
 end Spok
